@@ -307,7 +307,7 @@ func (i *IRIs) Count() uint {
 
 // Contains verifies if IRIs array contains the received one
 func (i IRIs) Contains(r Item) bool {
-	if len(i) == 0 || IsNil(r) {
+	if len(i) == 0 || (!IsIRI(r) && IsNil(r)) {
 		return false
 	}
 	for _, iri := range i {
